@@ -25,6 +25,9 @@ CHECKS["C18"] = ("property-based testing (rapid): generated programs vs independ
 CHECKS["C09"] = ("property-based testing (rapid): generated + corpus programs vs independent strict IR validator and typifier",
          "Every module returned by lowering for corpus files and generated programs is judged by an independent implementation of the stated IR contract (handle order, no abstract kinds, type dedup, recorded type = independently inferred type, emit discipline on every path, returns, stores, calls, entry-point and global bindings) plus naga's own validator. Exploration only.",
          "Trusted: verif/internal/irx (typifier and validator written from the WGSL / upstream-naga typing rules; rules relaxed where naga-go's conventions legitimately differ are listed in the agent report and DESIGN.md).", "DESIGN.md §4 C09")
+CHECKS["C08"] = ("property-based testing (rapid): valid-by-construction programs must be accepted by every stage and backend",
+         "Programs from two typed generators (exec profile: compute over scalars/vectors/matrices/arrays/structs/pointers/control flow/builtins; full profile: 1-4 entry points of mixed stages, IO structs, textures/samplers, shared and aliased bindings, shadowing, forward references, overrides, atomics) and the corpus are run through Parse, Lower, Validate, the one-call Compile API and the SPIR-V/HLSL/MSL/GLSL backends under drawn option sets; any error or panic is a violation unless it maps to a listed finding. Exploration only.",
+         "Trusted: validity by construction of the generators (own AST and typing); documented-feature scope taken from README/CHANGELOG/corpus.", "DESIGN.md §4 C08")
 PENDING = {}  # filled below
 
 def main():
